@@ -1,3 +1,4 @@
+use super::util::ignore_comments;
 use super::value::value_expression;
 use super::{PResult, Span, input_to_str, input_to_string};
 use crate::sass::{SassString, StringPart};
@@ -368,8 +369,12 @@ fn normalized_escaped_char_q(input: Span) -> PResult<String> {
 }
 
 pub fn string_part_interpolation(input: Span) -> PResult<StringPart> {
-    let (input, expr) =
-        delimited(tag("#{"), value_expression, tag("}")).parse(input)?;
+    let (input, expr) = delimited(
+        terminated(tag("#{"), ignore_comments),
+        value_expression,
+        tag("}"),
+    )
+    .parse(input)?;
     Ok((input, StringPart::Interpolation(expr)))
 }
 
